@@ -19,7 +19,19 @@ ALREADY = """
 - `DomainMapping._evaluate__` evaluating its child with `_evaluate__` instead of `_evaluate_as_value_`
 - an early `if not inner: return` in `Flatten._apply_mapping_`
 - a wrong entry in the `Comparator._invert_` table, or `Not()` setting instead of toggling the flag
-- `symbolic_mode` restoring the mode / leaving the query outside its `finally:`
+- `symbolic_mode` restoring the mode / leaving the query outside its `finally:`; `An.evaluate` deciding its mode override once
+- `IndexedCache.clear()` forgetting `seen_set` or `flat_cache`; `SeenSet.clear` not resetting `all_seen`; `IndexedCache.check` storing
+- `SeenSet.check` treating a key the lookup does not bind as covered; `insert` returning early for a binding seen before
+- `DomainMapping._evaluate__` reading `self._yield_when_false_` instead of its argument
+- the type filter in `extract_selected_variable_and_expression` built as a list, written back into the caller's `From`, or using `cls`
+- `let` / `_update_domain_` testing the domain for truth
+- `BinaryOperator._required_variables_from_child_` with `child is self.right`; dropping a line from any `_required_variables_from_child_`
+- `_bind_selected_variables_` / `_bind_child_vars_` handing on `binding` instead of `extended_binding`, or extending it in place
+- `HashedIterable.filter` made eager; `ALL.__hash__` returning a constant
+- `ForAll._evaluate__` re-seeding when the intersection is empty; `for_all` built on `universal_variable._var_`
+- `update_cache(left_value, self.right_cache)`; `right_cache.keys` taken from the left operand
+- `Concatenate` skipping falsy scalars or classifying by try/except; `is_iterable` by exact type
+- keyword arguments equal to None dropped; a keyword-only symbolic call run without its arguments
 """
 TEMPLATE = """# Task
 
